@@ -49,6 +49,8 @@ inductive Err where
   | valueError
   | typeError
   | indexError
+  /-- `NotImplementedError` (`get_localgrid`, `moments` of a multi-domain grid) -/
+  | notImplementedError
   /-- not a Python exception: a translated `while True` loop used up its iteration bound -/
   | nonTermination
   deriving DecidableEq, Repr
